@@ -1205,6 +1205,11 @@ class Interp:
 
     def st_Assert(self, st, env, mod):
         c = self.truth(self.eval(st.test, env, mod))
+        if getattr(self.world, "asserts_raise", False):
+            # the contract at hand speaks about the AssertionError as an outcome (default: an assert is an obligation)
+            if not self.branch(c):
+                raise PyRaise(ExcV("AssertionError"))
+            return
         self.require(c, f"assert@{self._site(st)}")
 
     def st_Raise(self, st, env, mod):
